@@ -198,7 +198,7 @@ def scan_forbidden(allow_native_in=()):
     return hits
 
 
-def proof_obligations(ctx, modules, required, extra_allowed=()):
+def proof_obligations(ctx, modules, required, extra_allowed=(), allow_native_in=()):
     """Build the theorem modules, audit axioms of every required theorem.
     Returns dict(obligations, discharged, failures, axioms)."""
     failures = []
@@ -208,7 +208,7 @@ def proof_obligations(ctx, modules, required, extra_allowed=()):
     if not build_ok:
         errs = [l for l in (r.stdout + r.stderr).splitlines() if "error" in l][:20]
         failures.append({"theorem": ",".join(modules), "why": "lake build failed", "log": errs})
-    hits = scan_forbidden()
+    hits = scan_forbidden(allow_native_in)
     for h in hits:
         failures.append({"theorem": h, "why": "forbidden token"})
     axioms = {}
@@ -234,7 +234,8 @@ def proof_obligations(ctx, modules, required, extra_allowed=()):
                 failures.append({"theorem": t, "why": "theorem missing or does not check"})
                 continue
             axioms[t] = sorted(ax)
-            bad = ax - ALLOWED_AXIOMS - set(extra_allowed)
+            bad = {a for a in ax - ALLOWED_AXIOMS - set(extra_allowed)
+                   if not any(x.startswith("re:") and re.fullmatch(x[3:], a) for x in extra_allowed)}
             if bad:
                 failures.append({"theorem": t, "why": "disallowed axioms " + ",".join(sorted(bad))})
             else:
